@@ -20,7 +20,7 @@ from hashlib import md5
 from zope.interface import Interface, implementer
 
 from twisted.cred import error
-from twisted.cred._digest import calcHA1, calcHA2, calcResponse
+from twisted.cred._digest import algorithms, calcHA1, calcHA2, calcResponse
 from twisted.python.compat import nativeString, networkString
 from twisted.python.deprecate import deprecatedModuleAttribute
 from twisted.python.randbytes import secureRandom
@@ -150,6 +150,15 @@ class DigestedCredentials:
         nc = self.fields.get("nc")
         algo = self.fields.get("algorithm", b"md5").lower()
         qop = self.fields.get("qop", b"auth")
+
+        if (
+            algo not in algorithms
+            or uri is None
+            or qop == b"auth-int"
+            or (algo == b"md5-sess" and cnonce is None)
+        ):
+            # Malformed or unsupported response: an ordinary mismatch.
+            return False
 
         expected = calcResponse(
             calcHA1(algo, self.username, self.realm, password, nonce, cnonce),
@@ -316,7 +325,10 @@ class DigestCredentialFactory:
             clientip = clientip.encode("ascii")
 
         # Verify the key
-        key = base64.b64decode(opaqueParts[1])
+        try:
+            key = base64.b64decode(opaqueParts[1])
+        except ValueError:  # binascii.Error is a ValueError
+            raise error.LoginFailed("Invalid response, invalid opaque value")
         keyParts = key.split(b",")
 
         if len(keyParts) != 3:
@@ -377,7 +389,10 @@ class DigestCredentialFactory:
         auth = {}
         for key, bare, quoted in parts:
             value = (quoted or bare).strip()
-            auth[nativeString(key.strip())] = value
+            try:
+                auth[nativeString(key.strip())] = value
+            except UnicodeError:
+                raise error.LoginFailed("Invalid response, non-ASCII parameter name")
 
         username = auth.get("username")
         if not username:
